@@ -1,8 +1,196 @@
-(* C09 — read -> convert -> write.  Property theorems only. *)
+(* C09 — read -> convert -> write yields a valid target file with the source's timeline.
+   Property theorems only: each is closed by [exact] from Proofs/PipelineProofs.v (table obligations and concrete
+   witnesses by vm_compute).
+
+   What is proved for ALL inputs:
+     * the comparison [timeline_close] is reflexive, symmetric, composes (triangle: resolutions add up), is monotone,
+       invariant under row order and compatible with the converters' column shift; the boolean comparison the runner
+       evaluates on the implementation's files soundly implies it; the resolution of a pair is the coarser of the two;
+     * every adapter maps "same denotation" to "same timeline" (Quaver: den_close / den_eq of C06; O2Jam: map_matches /
+       map_equiv of C07; osu, StepMania, BMS: equality up to row order);
+     * END TO END for O2Jam -> Quaver (C09_o2j_to_qua_pipeline): the three ingredients are proved in C07, C08, C06 and the
+       composition - including the step "the reader's output is inside the writer's domain" - is proved here;
+     * the proved HALVES for every other pair that involves Quaver or O2Jam, and the generic composition lemma.
+   What is NOT proved (the _partial statement says exactly what is missing): the end-to-end statement for the other
+   15 pairs.  Per pair the missing ingredient is a whole-file theorem of another property that is itself partial today:
+       osu reader / writer      C01: line-level reader = osu_denote and written-line lemmas are proved, the lifting to
+                                whole files is not (C01 "whole-file round-trip theorems are partial")
+       StepMania reader/writer  C02_sm_read_denotes_partial, C03_sm_write_denotes_partial
+       BMS reader / writer      C04 bms_read_denotes, C05 bms_write_denotes (open)
+     and, for every pair but O2Jam -> Quaver, the bridge between the two games' chart records and the frame on which C08's
+     cast theorem is stated (built here for O2Jam -> Quaver only).
+       osu->qua: reader | osu->sm: reader, writer | osu->bms: reader, writer | qua->osu: writer | qua->sm: writer |
+       qua->bms: writer | sm->osu: reader, writer | sm->qua: reader | sm->bms: reader, writer | bms->osu: reader, writer |
+       bms->qua: reader | bms->sm: reader, writer | o2j->osu: writer | o2j->sm: writer | o2j->bms: writer.
+   For those pairs the statement is decided on every run on the implementation's files by the reference interpreters
+   (Corr/RunC09.v), and several of them are FALSE of the pinned tree: see the witnesses below and docs/C09.md. *)
 From Coq Require Import ZArith QArith Qround Qabs List Bool Permutation.
-From RV Require Import Base.PyNum Formats.Timeline Proofs.PipelineProofs.
+From RV Require Import Base.PyNum Formats.Timeline Generated.Tables Proofs.PipelineProofs.
+From RV Require Formats.Osu Formats.OsuSpec Formats.Qua Formats.QuaSpec Formats.SM Formats.SMSpec Formats.BMSSpec
+  Formats.O2J Formats.O2JSpec Corr.RunC09.
 Import ListNotations.
 Open Scope Q_scope.
 
-Theorem C09_ms_rel_refl : forall {A} (R : A -> A -> Prop), (forall x, R x x) -> forall l, ms_rel R l l.
-Proof. exact @ms_rel_refl. Qed.
+(* ---- table obligation (re-checked against the regenerated table on every run): the OJN header layout ---- *)
+Theorem C09_ojn_layout_is_reference : Tables.c07.layout = O2JSpec.ref_layout.
+Proof. vm_compute. reflexivity. Qed.
+
+(* ================= the comparison ================= *)
+Theorem C09_timeline_close_refl : forall r e a, 0 <= r -> 0 <= e -> timeline_close r e a a.
+Proof. exact timeline_close_refl. Qed.
+Theorem C09_timeline_close_sym : forall r e a b, timeline_close r e a b -> timeline_close r e b a.
+Proof. exact timeline_close_sym. Qed.
+(* triangle: a file within r1 of a chart that is within r2 of another file is within r1 + r2 of that file *)
+Theorem C09_timeline_close_triangle : forall r1 e1 r2 e2 a b c,
+  timeline_close r1 e1 a b -> timeline_close r2 e2 b c -> timeline_close (r1 + r2) (e1 + e2) a c.
+Proof. exact timeline_close_trans. Qed.
+Theorem C09_timeline_close_monotone : forall r e r' e' a b, r <= r' -> e <= e' -> timeline_close r e a b -> timeline_close r' e' a b.
+Proof. exact timeline_close_weaken. Qed.
+Theorem C09_timeline_close_row_order : forall r e a a' b b',
+  Permutation (tl_notes a) (tl_notes a') -> Permutation (tl_tempo a) (tl_tempo a') ->
+  Permutation (tl_notes b) (tl_notes b') -> Permutation (tl_tempo b) (tl_tempo b') ->
+  timeline_close r e a b -> timeline_close r e a' b'.
+Proof. exact timeline_close_perm. Qed.
+Theorem C09_timeline_close_shift : forall r e s a b, timeline_close r e a b -> timeline_close r e (tl_shift s a) (tl_shift s b).
+Proof. exact timeline_close_shift. Qed.
+(* local (tempo-dependent) bounds: a constant bound is a special case, and a local bound below R gives the constant R *)
+Theorem C09_local_bound_const : forall r e a b, timeline_close_by (fun _ => r) e a b <-> timeline_close r e a b.
+Proof. exact timeline_close_by_const. Qed.
+Theorem C09_local_bound_below : forall rf R e a b, (forall t, rf t <= R) -> timeline_close_by rf e a b -> timeline_close R e a b.
+Proof. exact timeline_close_by_bound. Qed.
+(* the oracle of Corr/RunC09.v: a `true` means the declarative relation, with the coarser of the two resolutions *)
+Theorem C09_oracle_sound : forall fa fb slack e src tgt,
+  c09_timeline_ok fa fb slack e src tgt = true -> timeline_close_by (res_pair fa fb (tl_tempo src) slack) e tgt src.
+Proof. exact c09_timeline_ok_sound. Qed.
+Theorem C09_resolution_is_the_coarser : forall fa fb tempo slack t,
+  res_pair fa fb tempo slack t == Qmax' (res_of fa tempo t) (res_of fb tempo t) + slack
+  /\ res_of fa tempo t + slack <= res_pair fa fb tempo slack t /\ res_of fb tempo t + slack <= res_pair fa fb tempo slack t
+  /\ res_pair fa fb tempo slack t == res_pair fb fa tempo slack t.
+Proof. exact res_pair_coarser. Qed.
+
+(* ================= the adapters: same denotation -> same timeline ================= *)
+Theorem C09_adapter_quaver_close : forall e a, QuaSpec.den_close e a -> timeline_close 1 0 (tl_of_qua e) (tl_of_qua a).
+Proof. exact tl_of_qua_close. Qed.
+Theorem C09_adapter_quaver_eq : forall e a, QuaSpec.den_eq e a -> timeline_close 0 0 (tl_of_qua e) (tl_of_qua a).
+Proof. exact tl_of_qua_eq. Qed.
+Theorem C09_adapter_o2jam_close : forall tol a b, 0 <= tol -> O2JSpec.map_matches tol a b ->
+  timeline_close (3 * tol) 0 (tl_of_omap a) (tl_of_omap b).
+Proof. exact tl_of_omap_close. Qed.
+Theorem C09_adapter_o2jam_equiv : forall a b,
+  Permutation (O2J.om_hits a) (O2J.om_hits b) -> Permutation (O2J.om_holds a) (O2J.om_holds b) -> O2J.om_bpms a = O2J.om_bpms b ->
+  timeline_close 0 0 (tl_of_omap a) (tl_of_omap b).
+Proof. exact tl_of_omap_equiv. Qed.
+Theorem C09_adapter_osu_row_order : forall d d',
+  Permutation (OsuSpec.d_hits d) (OsuSpec.d_hits d') -> Permutation (OsuSpec.d_holds d) (OsuSpec.d_holds d') ->
+  Permutation (OsuSpec.d_bpms d) (OsuSpec.d_bpms d') -> timeline_close 0 0 (tl_of_osu d) (tl_of_osu d').
+Proof. exact tl_of_osu_perm. Qed.
+Theorem C09_adapter_sm_row_order : forall d d' c c',
+  Permutation (SMSpec.d_notes c) (SMSpec.d_notes c') -> Permutation (SMSpec.d_tempo d) (SMSpec.d_tempo d') ->
+  timeline_close 0 0 (tl_of_sm_chart d c) (tl_of_sm_chart d' c').
+Proof. exact tl_of_sm_perm. Qed.
+Theorem C09_adapter_bms_row_order : forall d d',
+  Permutation (BMSSpec.d_hits d) (BMSSpec.d_hits d') -> Permutation (BMSSpec.d_holds d) (BMSSpec.d_holds d') ->
+  Permutation (BMSSpec.d_tempo d) (BMSSpec.d_tempo d') -> timeline_close 0 0 (tl_of_bms d) (tl_of_bms d').
+Proof. exact tl_of_bms_perm. Qed.
+
+(* ================= END TO END: O2Jam -> Quaver =================
+   For EVERY well-formed OJN file f (C07's domain), any trailing bytes, any metadata of the declared types, and every
+   difficulty k: the reader model (O2J.read_fixed, proved against ojn_denote in C07) returns a chart; the converter
+   (o2j_to_qua = ConvertBase.cast with O2JToQua's mappings, the model proved exact in C08, + the metadata) turns it into a
+   chart inside the Quaver writer's strict domain; the writer model (Qua.Live.write, C06) produces a document that is
+   well-formed (wf_qua_docb), declares every metadata key, and whose timeline under Quaver's format semantics
+   (qua_denote) equals the timeline the OJN file denotes under O2Jam's format semantics (ojn_denote): same notes in the
+   same columns, every start and end and every tempo point within 1 ms - the coarser of the two resolutions - and the same
+   bpm values.  Hypotheses, explicit: wf_file f; the 21 metadata attributes typed (meta_okb false meta; the converter's
+   metadata wiring is checked per run by C08); the table obligation C09_ojn_layout_is_reference. *)
+Theorem C09_o2j_to_qua_pipeline : forall f trail meta, O2JSpec.wf_file f = true -> QuaSpec.meta_okb false meta = true ->
+  exists o d, O2J.read_fixed (O2JSpec.encode_file f ++ trail) = Some o /\ O2JSpec.ojn_denote f = Some d
+    /\ length (O2J.os_maps o) = length (O2J.os_maps d)
+    /\ forall k mo md, nth_error (O2J.os_maps o) k = Some mo -> nth_error (O2J.os_maps d) k = Some md ->
+       exists c doc e, o2j_to_qua meta mo = Some c /\ Qua.Live.write c = Some doc
+         /\ QuaSpec.wf_qua_docb doc = true /\ QuaSpec.qua_denote doc = Some e /\ QuaSpec.all_declared (QuaSpec.d_meta e) = true
+         /\ timeline_close 1 0 (tl_of_qua e) (tl_of_omap md).
+Proof. exact (o2j_to_qua_pipeline C09_ojn_layout_is_reference). Qed.
+(* the converter of that theorem IS the cast of C08 with O2JToQua's mappings, computed on every list of records *)
+Theorem C09_o2j_to_qua_is_cast : forall meta m, o2j_to_qua meta m = Some (q_chart meta m).
+Proof. exact o2j_to_qua_explicit. Qed.
+(* "the reader's output satisfies the writer's wf": lanes 0..6 are valid Quaver columns, every cell is numeric *)
+Theorem C09_converted_chart_in_writer_domain : forall meta m,
+  Forall (fun h => (0 <= O2J.h_col h)%Z) (O2J.om_hits m) -> Forall (fun h => (0 <= O2J.l_col h)%Z) (O2J.om_holds m) ->
+  QuaSpec.meta_okb false meta = true -> QuaSpec.wf_chartb false (q_chart meta m) = true.
+Proof. exact q_chart_wf. Qed.
+
+(* ================= the other pairs: what is proved of them =================
+   FULL STATEMENT (not proved; see the header for the missing ingredient per pair):
+     forall (A, B) of the 16 pairs, every source file f in A's domain with a timeline B can hold (RunC09.conv_ok):
+       exists target, model_write_B (model_convert_AB (model_read_A f)) = Some target /\ wf_B target
+                      /\ timeline_close_by (res_pair A B ..) eps (timeline_of_B (denote_B target)) (shift (timeline_of_A (denote_A f))).
+   Proved: the generic composition (any reader / converter / writer that meet their own bounds compose to the sum), and
+   the reader / writer halves for Quaver and O2Jam in the form that composition consumes. *)
+Theorem C09_pipeline_compose_partial : forall r1 e1 r2 e2 s src chart_a chart_b tgt,
+  timeline_close r1 e1 chart_a src -> timeline_close 0 0 chart_b (tl_shift s chart_a) -> timeline_close r2 e2 tgt chart_b ->
+  timeline_close (r1 + r2) (e1 + e2) tgt (tl_shift s src).
+Proof. exact pipeline_compose. Qed.
+Theorem C09_quaver_reader_half_partial : forall doc, QuaSpec.wf_docb doc = true ->
+  exists c e a, Qua.Live.read doc = Some c /\ QuaSpec.qua_denote doc = Some e /\ QuaSpec.chart_denote c = Some a
+                /\ timeline_close 0 0 (tl_of_qua a) (tl_of_qua e).
+Proof. exact qua_reader_half. Qed.
+Theorem C09_quaver_writer_half_partial : forall c, QuaSpec.wf_chartb false c = true ->
+  exists doc e a, Qua.Live.write c = Some doc /\ QuaSpec.wf_qua_docb doc = true /\ QuaSpec.qua_denote doc = Some e
+                  /\ QuaSpec.chart_denote c = Some a /\ timeline_close 1 0 (tl_of_qua e) (tl_of_qua a).
+Proof. exact qua_writer_half. Qed.
+Theorem C09_o2jam_reader_half_partial : forall f trail, O2JSpec.wf_file f = true ->
+  exists o d, O2J.read_fixed (O2JSpec.encode_file f ++ trail) = Some o /\ O2JSpec.ojn_denote f = Some d
+    /\ forall k mo md, nth_error (O2J.os_maps o) k = Some mo -> nth_error (O2J.os_maps d) k = Some md ->
+        timeline_close 0 0 (tl_of_omap mo) (tl_of_omap md)
+        /\ Forall (fun n => (0 <= tn_col n < 7)%Z) (tl_notes (tl_of_omap md)).
+Proof. exact (o2j_reader_half C09_ojn_layout_is_reference). Qed.
+
+(* ================= defects of the pinned tree: refuted on real files =================
+   Each witness: a source file inside its format's domain and inside the composition's domain (wf_ok), the file the
+   pinned pipeline wrote for it (spec_ok = false: the written file does not carry the source's timeline), and the same
+   written file with the single field the proposed repair changes (spec_ok = corr_ok = true). *)
+(* OsuToSM: sms.offset = 0.0 although the first timing point is at 500 ms -> everything 500 ms early *)
+Theorem C09_osu_to_sm_offset_refuted :
+  RunC09.wf_ok (RunC09.check w_osu_sm_offset_pinned) = true /\ RunC09.spec_ok (RunC09.check w_osu_sm_offset_pinned) = false
+  /\ RunC09.spec_ok (RunC09.check w_osu_sm_offset_repaired) = true /\ RunC09.corr_ok (RunC09.check w_osu_sm_offset_repaired) = true.
+Proof. exact witness_osu_sm_offset. Qed.
+(* QuaToSM: sms.offset = stack().offset.min() picks a scroll velocity 100 ms before the first timing point *)
+Theorem C09_qua_to_sm_offset_refuted :
+  RunC09.wf_ok (RunC09.check w_qua_sm_offset_pinned) = true /\ RunC09.spec_ok (RunC09.check w_qua_sm_offset_pinned) = false
+  /\ RunC09.spec_ok (RunC09.check w_qua_sm_offset_repaired) = true /\ RunC09.corr_ok (RunC09.check w_qua_sm_offset_repaired) = true.
+Proof. exact witness_qua_sm_offset. Qed.
+(* SMToOsu: CircleSize stays 4 for a 7-key chart -> column 6 is written at x = 832 and denotes column 3 *)
+Theorem C09_sm_to_osu_circle_size_refuted :
+  RunC09.wf_ok (RunC09.check w_sm_osu_cs_pinned) = true /\ RunC09.spec_ok (RunC09.check w_sm_osu_cs_pinned) = false
+  /\ RunC09.spec_ok (RunC09.check w_sm_osu_cs_repaired) = true /\ RunC09.corr_ok (RunC09.check w_sm_osu_cs_repaired) = true.
+Proof. exact witness_sm_osu_circle_size. Qed.
+
+(* ================= non-vacuity =================
+   a well-formed OJN file (tempo 240 from measure 1, a tap at measure 0 and one at measure 2 on column 0, a long note on
+   column 6 across measures) and typed metadata: the hypotheses of C09_o2j_to_qua_pipeline hold, and the composed models
+   compute a Quaver document whose timeline is the file's: taps at 0 and 3000 ms, the long note 500..1750 ms, tempo
+   points 0 / 140 bpm (header) and 2000 ms / 240 bpm. *)
+Definition ex_ojn : O2JSpec.ofile :=
+  O2JSpec.mkFile Proofs.O2JProofs.w_hdr
+    [[O2JSpec.mkPkg 1 1 1 [(0, [0; 0; 112; 67])]; O2JSpec.mkPkg 0 2 1 [(0, [1; 0; 0; 0])]; O2JSpec.mkPkg 2 2 1 [(0, [1; 0; 0; 0])];
+      O2JSpec.mkPkg 0 8 4 [(1, [1; 0; 0; 2])]; O2JSpec.mkPkg 1 8 8 [(1, [1; 0; 0; 3])]]; []; []]%Z.
+Definition ex_meta : list Qua.ytree := map snd Qua.Live.meta_defaults.
+Example C09_nonvacuous :
+  O2JSpec.wf_file ex_ojn = true /\ QuaSpec.meta_okb false ex_meta = true
+  /\ match O2J.read_fixed (O2JSpec.encode_file ex_ojn ++ [9; 9]%Z), O2JSpec.ojn_denote ex_ojn with
+     | Some o, Some d =>
+         match nth_error (O2J.os_maps o) 0, nth_error (O2J.os_maps d) 0 with
+         | Some mo, Some md =>
+             match o2j_to_qua ex_meta mo with
+             | Some c => match Qua.Live.write c with
+                         | Some doc => match QuaSpec.qua_denote doc with
+                                       | Some e => QuaSpec.wf_qua_docb doc && timeline_closeb 1 0 (tl_of_qua e) (tl_of_omap md)
+                                                   && (length (tl_notes (tl_of_omap md)) =? 3)%nat
+                                                   && (length (tl_tempo (tl_of_omap md)) =? 2)%nat
+                                       | None => false end
+                         | None => false end
+             | None => false end
+         | _, _ => false end
+     | _, _ => false end = true.
+Proof. vm_compute. auto. Qed.
